@@ -103,6 +103,20 @@ theorem runOps_sound : ∀ (ops : List WOp) {s : SFile}, Sound s → Sound (runO
 
 /-! ## definition records of an export -/
 
+/-- a history of `store_basin` calls never changes a map feature that is already in the file -/
+theorem storeAll_maps_kept : ∀ (reqs : List (Nat × MapReq)) {s s' : SFile}, Sound s →
+    storeAll s reqs = some s' → ∀ j c, lk j s.maps = some c → lk j s'.maps = some c
+  | [], s, s', _, h => by
+    simp only [storeAll, Option.some.injEq] at h; subst h; exact fun _ _ hj => hj
+  | (t, r) :: rest, s, s', hs, h => by
+    simp only [storeAll] at h
+    cases h1 : storeBasin s t r with
+    | none => simp [h1] at h
+    | some s1 =>
+      simp only [h1, Option.bind_some] at h
+      have h2 := storeBasin_sound hs h1
+      exact fun j c hj => storeAll_maps_kept rest h2.1 h j c (h2.2.1 j c hj)
+
 theorem storeAll_intended : ∀ (reqs : List (Nat × MapReq)) {s s' : SFile}, Sound s →
     storeAll s reqs = some s' →
     s'.defs.map (·.intended) = s.defs.map (·.intended) ++ reqs.map (·.2.content)
